@@ -68,7 +68,15 @@ type subSpec struct {
 	Prices   []uint64 `json:"prices"`
 	Outcomes []int    `json:"outcomes"` // per attempt (cyclic)
 	PollErrs []int    `json:"pollerrs"` // per attempt: tx query errors before the answer
+	// KeyFault: the key id taken from the idle pool is not in the keyring when submitPrice runs (the keyring is
+	// shared with the operator's CLI; New() only lists it once): 0 none; 1 deleted, restored afterwards; 2 deleted
+	// for good; 3 renamed away for good; 4 renamed away, renamed back afterwards
+	KeyFault int `json:"keyfault,omitempty"`
 }
+
+const nKeyFaults = 5
+
+var keyFaultName = []string{"none", "deleted_restored", "deleted", "renamed", "renamed_restored"}
 
 type submitCase struct {
 	NKeys    int       `json:"nkeys"`
@@ -126,6 +134,7 @@ func genSubmit(rt *rapid.T) submitCase {
 			s.Outcomes = append(s.Outcomes, o)
 			s.PollErrs = append(s.PollErrs, gen.OneOf(rt, "pollerrs", 0, 0, 1, 3))
 		}
+		s.KeyFault = gen.Pick(rt, "keyfault", 86, 4, 4, 3, 3)
 		c.Subs = append(c.Subs, s)
 	}
 	return c
@@ -134,9 +143,8 @@ func genSubmit(rt *rapid.T) submitCase {
 // ---- process-wide fixtures ---------------------------------------------------------------------------------
 
 type submitFixture struct {
-	ch       *sim.Chain
-	keyrings [4]keyring.Keyring // index = number of keys
-	err      error
+	ch  *sim.Chain
+	err error
 }
 
 var (
@@ -153,19 +161,25 @@ func fixture() *submitFixture {
 			return
 		}
 		fix.ch = ch
-		for n := 1; n <= 3; n++ {
-			kb := keyring.NewInMemory(ch.App.AppCodec())
-			for i := 0; i < n; i++ {
-				a := sim.NewAccount(fmt.Sprintf("feeder%d", i))
-				if err := kb.ImportPrivKeyHex(fmt.Sprintf("feeder%d", i), hex.EncodeToString(a.Priv.Bytes()), "secp256k1"); err != nil {
-					fix.err = err
-					return
-				}
-			}
-			fix.keyrings[n] = kb
-		}
 	})
 	return &fix
+}
+
+func feederName(i int) string { return fmt.Sprintf("feeder%d", i) }
+
+func feederKeyHex(name string) string {
+	return hex.EncodeToString(sim.NewAccount(name).Priv.Bytes())
+}
+
+// newKeyring builds the daemon's keyring for one case (it is mutated by the key faults, so it is not shared).
+func newKeyring(cdc codec.Codec, n int) (keyring.Keyring, error) {
+	kb := keyring.NewInMemory(cdc)
+	for i := 0; i < n; i++ {
+		if err := kb.ImportPrivKeyHex(feederName(i), feederKeyHex(feederName(i)), "secp256k1"); err != nil {
+			return nil, err
+		}
+	}
+	return kb, nil
 }
 
 // ---- stubs ----------------------------------------------------------------------------------------------------
@@ -393,11 +407,16 @@ func runSubmit(c submitCase) *pbt.Verdict {
 	w := &submitWorld{c: &c, polls: map[string]int{}, cdc: app.AppCodec(), ir: app.InterfaceRegistry(), txCfg: app.GetTxConfig()}
 	w.attempt.Store(-1)
 	w.validator = fx.ch.Vals[0].Val.String()
+	kb, err := newKeyring(app.AppCodec(), c.NKeys)
+	if err != nil {
+		v.Failf("C20/harness-setup", "keyring: %v", err)
+		return v
+	}
 	clientCtx := client.Context{
 		ChainID:           "bandsim",
 		Codec:             app.AppCodec(),
 		InterfaceRegistry: app.InterfaceRegistry(),
-		Keyring:           fx.keyrings[c.NKeys],
+		Keyring:           kb,
 		TxConfig:          app.GetTxConfig(),
 		BroadcastMode:     flags.BroadcastSync,
 	}
@@ -427,7 +446,7 @@ func runSubmit(c submitCase) *pbt.Verdict {
 		pending.Store(id, struct{}{})
 	}
 
-	var injected, successes, gaveUp int64
+	var injected, successes, gaveUp, keyMissing int64
 	for si := range c.Subs {
 		sp := &c.Subs[si]
 		sub := submitter.SignalPriceSubmission{UUID: fmt.Sprintf("uuid-%d", si)}
@@ -467,7 +486,45 @@ func runSubmit(c submitCase) *pbt.Verdict {
 		w.mu.Unlock()
 		w.attempt.Store(-1)
 
+		// eleventh fault kind: the key id is not in the keyring at the moment submitPrice runs
+		kf := ((sp.KeyFault % nKeyFaults) + nKeyFaults) % nKeyFaults
+		moved := keyID + "-moved"
+		if kf != 0 {
+			if _, kerr := kb.Key(keyID); kerr == nil {
+				if derr := kb.Delete(keyID); derr != nil {
+					v.Failf("C20/harness-setup", "keyring delete: %v", derr)
+					return v
+				}
+				if kf == 3 || kf == 4 { // rename = same key material under another name
+					if ierr := kb.ImportPrivKeyHex(moved, feederKeyHex(keyID), "secp256k1"); ierr != nil {
+						v.Failf("C20/harness-setup", "keyring rename: %v", ierr)
+						return v
+					}
+				}
+			}
+		}
+		_, lookupErr := kb.Key(keyID) // also fails when an earlier submission removed this key for good
+		missing := lookupErr != nil
+		kfName := keyFaultName[kf]
+		if missing && kf == 0 {
+			kfName = "removed_earlier"
+		}
+
 		sm.VerifSubmitPrice(sub, keyID)
+
+		if missing && (kf == 1 || kf == 4) { // restored for the next submission
+			if kf == 4 {
+				_ = kb.Delete(moved)
+			}
+			if ierr := kb.ImportPrivKeyHex(keyID, feederKeyHex(keyID), "secp256k1"); ierr != nil {
+				v.Failf("C20/harness-setup", "keyring restore: %v", ierr)
+				return v
+			}
+		}
+		what := fmt.Sprintf("attempt outcomes %v", names(w.executed))
+		if missing {
+			what = fmt.Sprintf("key id %s missing from the keyring [%s]", keyID, kfName)
+		}
 
 		// ---- oracle (5) ----
 		now := map[string]bool{}
@@ -476,10 +533,10 @@ func runSubmit(c submitCase) *pbt.Verdict {
 		}
 		for _, p := range sub.SignalPrices {
 			if now[p.SignalID] {
-				v.Failf("C20/pending-not-released", "submission %d (attempt outcomes %v): signal %s still in the pending set after submitPrice returned", si, names(w.executed), p.SignalID)
+				v.Failf("C20/pending-not-released", "submission %d (%s): signal %s still in the pending set after submitPrice returned", si, what, p.SignalID)
 			}
 			if _, still := pending.Load(p.SignalID); still {
-				v.Failf("C20/pending-not-released", "submission %d (attempt outcomes %v): signal %s still in the shared pending map after submitPrice returned", si, names(w.executed), p.SignalID)
+				v.Failf("C20/pending-not-released", "submission %d (%s): signal %s still in the shared pending map after submitPrice returned", si, what, p.SignalID)
 			}
 		}
 		for _, id := range sortedKeys(others) {
@@ -490,7 +547,7 @@ func runSubmit(c submitCase) *pbt.Verdict {
 		idle := sm.VerifIdleKeys()
 		sort.Strings(idle)
 		if strings.Join(idle, ",") != strings.Join(allKeys, ",") {
-			v.Failf("C20/key-not-returned", "submission %d (attempt outcomes %v): idle pool %v after submitPrice returned, expected %v (key %s was taken)", si, names(w.executed), idle, allKeys, keyID)
+			v.Failf("C20/key-not-returned", "submission %d (%s): idle pool %v after submitPrice returned, expected %v (key %s was taken)", si, what, idle, allKeys, keyID)
 		}
 		// statistics
 		w.mu.Lock()
@@ -503,6 +560,15 @@ func runSubmit(c submitCase) *pbt.Verdict {
 			} else {
 				injected++
 				v.Count("attempt_"+outcomeName[o], 1)
+			}
+		}
+		if missing {
+			keyMissing++
+			injected++
+			v.Count("sub_key_missing", 1)
+			v.Count("sub_key_missing_"+kfName, 1)
+			if len(executed) > 0 {
+				v.Count("attempts_despite_missing_key", 1)
 			}
 		}
 		if c.GasUsed == 0 {
@@ -529,6 +595,9 @@ func runSubmit(c submitCase) *pbt.Verdict {
 	v.NonTrivial = injected > 0
 	if injected > 0 {
 		v.Class("B:injected-failure")
+	}
+	if keyMissing > 0 {
+		v.Class("B:key-lookup-failure")
 	}
 	if gaveUp > 0 {
 		v.Class("B:gave-up")
